@@ -85,7 +85,9 @@ def run_case(kind, payload):
             ir3 = cdd.argparse_function.parse.argparse_ast(ast.parse(to_code(ap)).body[0])
             return canon_ir(ir3)
     except Exception as e:  # noqa
-        return "raises:%s:%s" % (type(e).__name__, str(e)[:80])
+        import re
+
+        return "raises:%s:%s" % (type(e).__name__, re.sub(r"0x[0-9a-fA-F]+", "0x..", str(e))[:80])  # object addresses are not output
     return "?"
 
 
